@@ -58,7 +58,8 @@ def operands(ctx, ka, kb, variant):
             f = c02._one(fk, R.affine(P0, (t, w), (-F(1, 2), d)), d)
         return (f, K) if fa else (K, f)
     rows = {('ConvexPolygon', 'ConvexPolygon'): [('square', 'square', None, (0, 1, 0), (1, 0, 0)), ('square', 'square', 8, (1, 1, -1), (0, 0, 1)),
-                                                 ('wide', 'tall', None, (0, 0, 0), (1, 0, 0))],
+                                                 ('wide', 'tall', None, (0, 0, 0), (1, 0, 0)),
+                                                 ('tri*2', 'square*1/2', None, (F(1, 2), F(1, 2), 0), (1, 0, 0))],
             ('ConvexPolyhedron', 'ConvexPolygon'): [('cube', 'square', None, (1, 1, -1), (0, 0, 1)), ('cube', 'tri', 8, (-1, 1, 1), (1, 0, 0))],
             ('ConvexPolyhedron', 'ConvexPolyhedron'): [('cube', 'cube', None, (0, 0, 0), (1, 0, 0)), ('cube', 'cube', None, (0, 0, 0), (1, 1, 1))]}
     sw = (ka, kb) == ('ConvexPolygon', 'ConvexPolyhedron')
@@ -116,8 +117,8 @@ def families(tier, seed):
     nv = 1 if tier == 'quick' else 3
     for ka in KINDS:
         for kb in KINDS:
-            for v in range(nv):
-                vv = v if tier != 'quick' else (KINDS.index(ka) + KINDS.index(kb)) % 3
+            for v in range(nv if not (ka == kb == 'ConvexPolygon') else 4):
+                vv = v if (tier != 'quick' or ka == kb == 'ConvexPolygon') else (KINDS.index(ka) + KINDS.index(kb)) % 3
                 if tier == 'quick' and ka == kb == 'Plane':
                     vv = 0       # the tilt template of two planes in the oblique frame needs the thorough budget
                 fams.append(Family('%s-%s/v%d' % (ka, kb, vv), fam_pair, (ka, kb, vv)))
